@@ -31,7 +31,7 @@ ASSUMPTIONS = [
     "timeouts fire only at quiescent moments (virtual clock)",
     "task exceptions and callback exceptions are Exception subclasses",
 ]
-EXHAUSTIVE = ["all schedules with at most k non-default scheduling choices of the 18 listed micro-programs (quick: k=3 sync / k=2 lines; thorough: k=4 / k=3; a program whose enumeration is truncated by the per-program limit is reported as dfs-program-truncated)"]
+EXHAUSTIVE = ["all schedules with at most k non-default scheduling choices of the 20 listed micro-programs (quick: k=3 sync / k=2 lines; thorough: k=4 / k=3; a program whose enumeration is truncated by the per-program limit is reported as dfs-program-truncated)"]
 
 _tp = [None]
 
@@ -76,6 +76,20 @@ def run_program(prog, chooser, lines=False, policy=()):
     def main():
         fut = T.FutureResult()
         kind = prog["task"]
+        if kind.startswith("ret-future"):
+            # the task's return value is itself a FutureResult (finished, failed or still pending):
+            # 'any object' - it is handed over as it is
+            inner = T.FutureResult()
+            if kind == "ret-future-done":
+                inner.execute(lambda: "inner value", (), {})
+            elif kind == "ret-future-failed":
+                def failing():
+                    raise KeyError("inner failure")
+                try:
+                    inner.execute(failing, (), {})
+                except KeyError:
+                    pass
+            state["ret"] = inner
         if kind.startswith("gated"):
             state["gate"] = D.Event()
 
@@ -86,7 +100,7 @@ def run_program(prog, chooser, lines=False, policy=()):
                     state["gate"].wait()
                 if kind.endswith("raise"):
                     raise exc_obj
-                return ret_obj
+                return state["ret"]
             finally:
                 sched.emit("body-end")
 
@@ -387,6 +401,8 @@ MICRO = [
     {"task": "ret", "threads": [[("cb", "same"), ("result", None), ("cb", "same"), ("cb", "same")]], "exec_first": True},
     {"task": "raise", "threads": [[("cb", "same"), ("cb", "same")]], "exec_first": False},
     {"task": "ret", "threads": [[("cb", "method")]], "exec_first": False},
+    {"task": "ret-future-failed", "threads": [[("cb", "ok"), ("result", None), ("done",)]], "exec_first": True},
+    {"task": "ret-future-pending", "threads": [[("result", 1.0), ("cb", "ok")]], "exec_first": True},
     {"task": "gated-raise", "threads": [[("cb", "callable-object"), ("cb", "method"), ("result", None)]], "exec_first": True},
     {"task": "ret", "threads": [[("cb", "flex-typeerror"), ("result", None), ("cb", "flex-typeerror")]], "exec_first": True},
     {"task": "raise", "threads": [[("cb", "flex-ok")], [("cb", "flex-typeerror")]], "exec_first": False},
@@ -450,7 +466,7 @@ ops = st.one_of(
 @st.composite
 def random_cases(draw):
     prog = {
-        "task": draw(st.sampled_from(["ret", "raise", "gated-ret", "gated-raise"])),
+        "task": draw(st.sampled_from(["ret", "ret", "raise", "raise", "gated-ret", "gated-raise", "ret-future-done", "ret-future-failed", "ret-future-pending"])),
         "threads": draw(st.lists(st.lists(ops, min_size=1, max_size=3), min_size=1, max_size=2)),
         "exec_first": draw(st.booleans()),
     }
@@ -474,7 +490,7 @@ SUBS = [
 
 CLAIM = {
     "technique": "schedule-owning property-based testing: bounded-exhaustive enumeration of thread schedules plus Hypothesis-generated programs and schedules, history oracle",
-    "text": "The real FutureResult code runs on real threads serialised by a deterministic scheduler; all schedules with <= k non-default choices of 18 micro-programs are enumerated (sync and line granularity) and thousands of generated (program, schedule) pairs are run; a history oracle checks done/result/callback protocol. Exhaustive only within the preemption bound on the listed programs.",
+    "text": "The real FutureResult code runs on real threads serialised by a deterministic scheduler; all schedules with <= k non-default choices of 20 micro-programs are enumerated (sync and line granularity) and thousands of generated (program, schedule) pairs are run; a history oracle checks done/result/callback protocol. Exhaustive only within the preemption bound on the listed programs.",
     "note": "Trusts vlib/detsched.py (simulated Lock/RLock/Condition/Event/Thread with FIFO wake-up and a virtual clock) to produce only legal CPython executions; granularity is synchronisation operations and source lines, not bytecodes.",
     "design_ref": "DESIGN.md section 4, C16; section 2.2 E2",
     "engine": "E2",
